@@ -138,7 +138,9 @@ def decompose_stream(ctx, cirq, mods, checks, n):
         if int(np.prod(g.shape or (1,))) > 32:
             continue
         cg = g.cirq_gate(cirq, mods)
-        qs = cirq.LineQid.for_qid_shape(g.shape)
+        # qubits in arbitrary (non-adjacent, non-sorted) positions of a line: decompositions that reorder qubits must still agree
+        pos = rng.sample(range(7), len(g.shape))
+        qs = [cirq.LineQid(x, dimension=d) for x, d in zip(pos, g.shape)]
         op = cg.on(*qs)
         for how in ('decompose_once', 'decompose'):
             try:
